@@ -4,7 +4,7 @@ cd "$(dirname "${BASH_SOURCE[0]}")/.."
 for d in ${SEEDROOT:-/tmp/seed}/C*/SEED; do
   id=$(basename $(dirname $d))
   for v in A B; do
-    o=$v; [ -n "$SEEDSUFFIX" ] && o=$( [ $v = A ] && echo C || echo D )
+    o=$v; [ -n "$SEEDSUFFIX" ] && o=$( [ $v = A ] && echo ${SEEDSUFFIX%?} || echo ${SEEDSUFFIX#?} )
     [ -f $d/$v.diff ] || continue
     t=seeded/$id-$o; [ -d $t ] && continue
     mkdir -p $t; cp $d/$v.diff $t/patch.diff; cp $d/${v}_demo.py $t/demo.py; cp $d/${v}_meta.json $t/meta.json
